@@ -5,7 +5,7 @@
    message). pdu_unpack fuel bs returns the decoded PDU and the number of loop iterations (ticks). *)
 From V Require Import Prelude.Base Prelude.PyInt Prelude.PySlice Prelude.PyStr gen.K_rpc gen.C_rpc.
 From V Require Import Model.Pdu Model.Request Model.RpcLoop Model.Bind Model.Verification Model.RpcDispatch Model.Epm.
-From V Require Import Proofs.RpcKernels Proofs.RpcPdu Proofs.RpcBind Proofs.RpcRoundtrip Proofs.RpcEpm Proofs.RpcExamples Proofs.RpcTotal Proofs.RpcVerification.
+From V Require Import Proofs.RpcKernels Proofs.RpcPdu Proofs.RpcBind Proofs.RpcRoundtrip Proofs.RpcEpm Proofs.RpcExamples Proofs.RpcTotal Proofs.RpcTotalLib Proofs.RpcVerification Proofs.RpcTotalPdu.
 
 (* ---- padding kernels (regenerated from _bind.py / _epm.py) ---- *)
 Theorem C12_pad_bindack : forall n, k_bindack_pack_pad n = k_bindack_unpack_pad n /\
@@ -141,21 +141,38 @@ Theorem C12_rt_verification_trailer : forall cmds fuel, wf_commands cmds = true 
 Proof. exact (fun cmds fuel H Hf => conj (verification_trailer_rt cmds fuel H Hf) (verification_trailer_pack_norm cmds)). Qed.
 Print Assumptions C12_rt_verification_trailer.
 
-(* ---- termination / cost on arbitrary octets. Full statement (C12_total_M for every decoder M: with fuel = length + 1
-        M.unpack never returns OutOfFuel and its ticks are <= length + 300) is proved below for the floor loop and for
-        EptMapResult.unpack only; the other decoders are listed as partial in the check module and covered by the
-        rpc.arbitrary.* correspondence units under the interpreter step budget. ---- *)
-Theorem C12_total_floors_partial : forall fuel n view, len view < Z.of_nat fuel ->
+(* ---- termination / cost on arbitrary octets (C12_total_M for every decoder M): for every octet string bs and every
+        fuel > length bs (in particular fuel = length bs + 1, C12_fuel_len1) M.unpack never returns OutOfFuel, and the
+        ticks of a successful decode are bounded by a linear function of the length (constants in each statement; no
+        additive constant and no well-formedness of bs is needed: every loop iteration consumes octets). ---- *)
+(* the floor loop on ANY view: every floor consumes at least 3 octets, so 3 t <= consumed length; t floors are kept *)
+Theorem C12_total_floors : forall fuel n (view : bytes), len view < Z.of_nat fuel ->
   floors_unpack fuel n view <> Raise OutOfFuel /\
-  forall s t, floors_unpack fuel n view = Ok (s, t) -> 0 <= t <= len view - len (fst s) /\ len (fst s) <= len view.
-Proof. exact floors_unpack_total. Qed.
-Print Assumptions C12_total_floors_partial.
+  forall s t, floors_unpack fuel n view = Ok (s, t) -> 0 <= t /\ 3 * t <= len view - len (fst s) /\ len (snd s) = t.
+Proof. exact (fun fuel n view H => conj (proj1 (noof_spec _) (proj1 (floors_unpack_total3 fuel n view H))) (proj2 (floors_unpack_total3 fuel n view H))). Qed.
+Print Assumptions C12_total_floors.
 
-Theorem C12_total_ept_map_result_partial : forall bs fuel, len bs < Z.of_nat fuel ->
+(* EptMapResult.unpack on ANY octet string: ticks (towers + floors) <= length, at most length / 8 towers kept *)
+Theorem C12_total_ept_map_result : forall bs fuel, len bs < Z.of_nat fuel ->
   ept_map_result_unpack fuel bs <> Raise OutOfFuel /\
   forall m t, ept_map_result_unpack fuel bs = Ok (m, t) -> 0 <= t <= len bs /\ 8 * len (er_towers m) <= len bs.
 Proof. exact ept_map_result_unpack_total. Qed.
-Print Assumptions C12_total_ept_map_result_partial.
+Print Assumptions C12_total_ept_map_result.
+
+(* PDU.unpack on ANY octet string (all eight registered PDU types, arbitrary wire counts, no well-formedness needed): never
+   out of fuel, and the loop ticks (contexts + their transfer syntaxes / results / protocol versions) are <= length:
+   every iteration consumes at least 2 octets of the fragment *)
+Theorem C12_total_pdu : forall bs fuel, len bs < Z.of_nat fuel ->
+  pdu_unpack fuel bs <> Raise OutOfFuel /\ forall p t, pdu_unpack fuel bs = Ok (p, t) -> 0 <= t <= len bs.
+Proof. exact pdu_unpack_total. Qed.
+Print Assumptions C12_total_pdu.
+
+(* EptMap.unpack on ANY octet string: ticks = floors kept, 3 per floor at least *)
+Theorem C12_total_ept_map : forall bs fuel, len bs < Z.of_nat fuel ->
+  ept_map_unpack fuel bs <> Raise OutOfFuel /\
+  forall m t, ept_map_unpack fuel bs = Ok (m, t) -> 0 <= t /\ 3 * t <= len bs /\ len (em_tower m) = t.
+Proof. exact ept_map_unpack_total. Qed.
+Print Assumptions C12_total_ept_map.
 
 (* fuel = length + 1 meets the fuel hypothesis of every C12_total_* theorem *)
 Theorem C12_fuel_len1 : forall bs : bytes, len bs < Z.of_nat (S (length bs)).
